@@ -180,3 +180,16 @@ TEXT["C07"] = {
     "technique": "Lean 4 proofs of completion-order independence and route equivalence + lock-step differential execution of every history through the sync and async APIs",
 }
 NOT_YET = {}
+
+# ---- additions of the second session (appended to the texts above)
+TEXT["C05"]["level"] += (" At ELEMENT level the whole partial encoder of nested chains is modelled (`ChainS.partialEncode`: overlapped inner chunks, the straddle test as written, "
+    "read-update-re-encode, elision, the default partial encoders of the other stages) and proved equal to the full rewrite for every reader, for one call and for every history "
+    "from an absent key, with every sharding level legal afterwards (Props/C05Chain, 16 theorems); the model runs on the raw stored values of real partial-encode histories (`c05 pes`).")
+TEXT["C16"]["level"] += (" The internal parallelism of the shard encoder is modelled as a small-step machine (one atomic fetch_add per inner chunk): under EVERY schedule the ranges "
+    "are disjoint, the shard is legal and decodes to the same chunk although its bytes differ (Props/C16Shard); the non-atomic variant loses an update on a concrete schedule while "
+    "all sequential schedules stay correct; a lock held across a join can deadlock, one not held cannot. Raw shards of up to 1024 inner chunks written at several concurrency "
+    "targets are checked for overlapping entries and equal decoded contents; a sharded-extension stress with a second client must complete.")
+TEXT["C02"]["level"] += (" Variable-length chains (`ChainV`: transposes + vlen_v2/vlen + bytes-to-bytes stages) have the same theorem (`chainV_partial_eq_full_slice`, Props/C01Vlen) "
+    "and the same raw-value tie (`c02v`).")
+TEXT["C01"]["level"] += (" Likewise for variable-length arrays over the vlen codecs (`read_after_history_vlen`, with the byte-level update/merge/extract/fill-test functions proved equal "
+    "to their element-level meaning).")
